@@ -517,12 +517,38 @@ end
 theorem dfs_eq_dfsList {α : Type} [DecidableEq α] (succ : α → List α) (n : Nat) (x : α) (r : Reach α) :
     dfs succ n x r = dfsList succ n [x] r := rfl
 
-/-- the marking pass over scopes computes reachability and never runs out of fuel -/
-theorem reach_iff (spreads : List (Scope × List Name)) (root sc : Scope) :
-    sc ∈ (reachScopes spreads (spreadFuel spreads) root {}).visited ↔ Reachable (scopeSucc spreads) root sc := by
+/-- the marking pass over scopes never runs out of fuel -/
+theorem reach_not_stuck (spreads : List (Scope × List Name)) (root : Scope) :
+    (reachScopes spreads (spreadFuel spreads) root {}).stuck = false := by
   unfold reachScopes
   rw [dfs_eq_dfsList]
+  apply dfsList_roots_not_stuck (scopeSucc spreads) (root :: spreads.flatMap fun p => p.2.map Scope.frag)
+  · intro u _ w hw
+    unfold scopeSucc at hw
+    cases hg : alGet spreads u with
+    | none => simp [hg] at hw
+    | some v =>
+      simp only [hg, Option.getD_some] at hw
+      refine List.mem_cons_of_mem _ (List.mem_flatMap.2 ⟨(u, v), ?_, hw⟩)
+      unfold alGet at hg
+      simp only [Option.map_eq_some_iff] at hg
+      obtain ⟨p, hp, rfl⟩ := hg
+      have h1 := List.find?_some hp
+      simp only [decide_eq_true_eq] at h1
+      have h2 := List.mem_of_find?_eq_some hp
+      rw [← h1]; exact h2
+  · intro y hy; simp only [List.mem_singleton] at hy; subst hy; exact List.mem_cons_self ..
+  · simp [spreadFuel, List.length_flatMap, Function.comp_def]
+
+/-- the marking pass over scopes computes reachability -/
+theorem reach_iff (spreads : List (Scope × List Name)) (root sc : Scope) :
+    sc ∈ (reachScopes spreads (spreadFuel spreads) root {}).visited ↔ Reachable (scopeSucc spreads) root sc := by
+  have hns0 := reach_not_stuck spreads root
+  unfold reachScopes at hns0 ⊢
+  rw [dfs_eq_dfsList] at hns0 ⊢
   have hns : (dfsList (scopeSucc spreads) (spreadFuel spreads) [root] {}).stuck = false := by
+    exact hns0
+  have hns' : (dfsList (scopeSucc spreads) (spreadFuel spreads) [root] {}).stuck = false := by
     apply dfsList_roots_not_stuck (scopeSucc spreads) (root :: spreads.flatMap fun p => p.2.map Scope.frag)
     · intro u _ w hw
       unfold scopeSucc at hw
